@@ -335,19 +335,37 @@ def main(argv):
                 # function not in the breakdown: cannot confirm
                 pass
 
-    # stand-ins and extra engines (Kani) for this property
+    # bounded stand-ins for assumed contracts / undecided clauses (never counted as proved): Kani harnesses on the real
+    # functions (tools/standins.py) and the exhaustive small-scope replay harness (replay/src/main.rs)
     standins = []
-    if cfg.get('standins'):
-        import standins as si
-        for s in cfg['standins']:
-            if a.tier == 'quick' and s.get('tier') == 'thorough':
-                continue
+    for s in cfg.get('standins', []):
+        if a.tier == 'quick' and s.get('tier') == 'thorough':
+            continue
+        if s.get('kind') == 'replay':
+            import replay
+            t1 = time.time()
+            rr = replay.run_harness(s['mode'], timeout=s.get('timeout', 900))
+            last = [l for l in (rr.get('log') or '').split('\n') if l.startswith(('NONE', 'WITNESS'))]
+            out = {'name': s['name'], 'kind': 'replay (bounded exhaustive enumeration on the real crate)', 'covers': s.get('covers', ''),
+                   'outcome': 'fail' if rr['found'] else ('pass' if last else 'error'), 'bound': (last[-1][:300] if last else ''),
+                   'witness': rr.get('witness'), 'wall_s': round(time.time() - t1, 1), 'detail': '' if last else (rr.get('log') or '')[-300:]}
+        else:
+            import standins as si
             out = si.run(s, a.tier)
-            standins.append(out)
-            if out['outcome'] == 'fail':
+            out['covers'] = s.get('covers', '')
+        standins.append(out)
+        if out['outcome'] == 'fail' and s.get('expected') == 'fail':
+            kf = [k for k in known if k.get('property') == pid and k.get('standin') == s['name']]
+            if kf:
+                known_hits.append((kf[0], 'standin:' + s['name'], None))
+            else:
                 violations.append(('standin:' + s['name'], out))
-            elif out['outcome'] in ('inconclusive', 'error'):
-                trouble.append('stand-in %s: %s' % (s['name'], out.get('detail', out['outcome'])))
+        elif out['outcome'] == 'fail':
+            violations.append(('standin:' + s['name'], out))
+        elif s.get('expected') == 'fail' and out['outcome'] == 'pass':
+            pass   # a known finding that no longer reproduces is not an alarm
+        elif out['outcome'] in ('inconclusive', 'error'):
+            trouble.append('stand-in %s: %s' % (s['name'], out.get('detail', out['outcome'])))
 
     # failed obligations in functions that lost proof hints count only if the replay finds a failing input
     if weak_violations and not violations:
@@ -368,7 +386,10 @@ def main(argv):
     rc = 0
     lines = []
     for hit, unit, fd in known_hits:
-        lines.append('KNOWN-FINDING: property=%s %s (obligation: %s in %s, unit %s)' % (pid, hit.get('text', ''), fd.message, fd.fn, unit))
+        if fd is None:
+            lines.append('KNOWN-FINDING: property=%s %s (%s)' % (pid, hit.get('text', ''), unit))
+        else:
+            lines.append('KNOWN-FINDING: property=%s %s (obligation: %s in %s, unit %s)' % (pid, hit.get('text', ''), fd.message, fd.fn, unit))
     replay_path = None
     if violations:
         import replay
